@@ -491,17 +491,37 @@ func (u *Unit) evalInner(st *State, env *SpecEnv, e *Spec) (Val, error) {
 				bt = tInt
 			}
 		}
-		u.freshN++
-		bv := fmt.Sprintf("q_%s!%d", mangle(e.Name), u.freshN)
+		// bound variables are named by nesting depth, not by a global counter: the same formula
+		// evaluated twice (once assumed, once as a goal) gets the same text
+		u.qNest++
+		bv := fmt.Sprintf("q_%s!n%d", mangle(e.Name), u.qNest)
 		guard = strings.ReplaceAll(guard, "$V", bv)
 		body, err := u.evalBool(st, env.with(e.Name, Val{T: bt, Terms: []Term{bv}}), e.A)
+		u.qNest--
 		if err != nil {
 			return Val{}, err
 		}
 		if e.Op == "forall" {
 			return boolVal(fmt.Sprintf("(forall ((%s %s)) %s)", bv, sort, sImp(guard, body))), nil
 		}
-		return boolVal(fmt.Sprintf("(exists ((%s %s)) %s)", bv, sort, sAnd(guard, body))), nil
+		ex := fmt.Sprintf("(exists ((%s %s)) %s)", bv, sort, sAnd(guard, body))
+		if e.B != nil && sort == "Int" && !strings.Contains(ex, "qi_") {
+			// witness hints: (exists x. P) is equivalent to (exists x. P) or P[t1] or ... ; the
+			// instances at the index terms met on the path spare the solver the search
+			ts := st.ixterms
+			if len(ts) > 8 {
+				ts = ts[len(ts)-8:]
+			}
+			alts := []Term{ex}
+			for _, t := range ts {
+				if strings.Contains(t, "q_") {
+					continue
+				}
+				alts = append(alts, replaceVar(sAnd(guard, body), bv, t))
+			}
+			return boolVal(sOr(alts...)), nil
+		}
+		return boolVal(ex), nil
 	case SSel:
 		return u.evalSel(st, env, e)
 	case SIndex:
@@ -590,7 +610,11 @@ func (u *Unit) frameOf(st *State, fr *Frame) *Frame {
 func (u *Unit) evalSel(st *State, env *SpecEnv, e *Spec) (Val, error) {
 	// qualified identifier pkg.Name
 	if e.A.Kind == SIdent {
-		if _, isVar := env.vars[e.A.Name]; !isVar {
+		_, isVar := env.vars[e.A.Name]
+		if _, isFree := env.freePtrs[e.A.Name]; isFree {
+			isVar = true // a captured variable shadows a package of the same name
+		}
+		if !isVar {
 			isLocal := false
 			if env.useLocals && env.fr != nil && u.findLocal(env.fr, e.A.Name) != nil {
 				isLocal = true
@@ -1188,7 +1212,30 @@ func (u *Unit) harvest(st *State, env *SpecEnv, e *Spec, ante Term, depth int) {
 			}
 			u.harvest(st, env, e.B, sAnd(ante, a), depth+1)
 		}
+	case SUnary:
+		if e.Op == "!" {
+			u.harvestNeg(st, env, e.A, ante, depth+1)
+		}
 	case SQuant:
+		if e.Op == "exists" && e.B != nil {
+			// an assumed existential: name its witness, so that the universally quantified
+			// facts on the path can be instantiated at it
+			lo, err1 := u.evalInt(st, env, e.B)
+			hi, err2 := u.evalInt(st, env, e.C)
+			if err1 != nil || err2 != nil {
+				return
+			}
+			sk := u.fresh(st, "wit_"+e.Name, "Int")
+			envs := env.with(e.Name, Val{T: tInt, Terms: []Term{sk}})
+			body, err := u.evalBool(st, envs, e.A)
+			if err != nil {
+				return
+			}
+			st.assume(sImp(ante, sAnd(fmt.Sprintf("(and (<= %s %s) (< %s %s))", lo, sk, sk, hi), body)))
+			u.instantiate(st, sk)
+			u.harvest(st, envs, e.A, ante, depth+1)
+			return
+		}
 		if e.Op != "forall" || e.B == nil {
 			return
 		}
@@ -1317,6 +1364,105 @@ func (u *Unit) harvest(st *State, env *SpecEnv, e *Spec, ante Term, depth int) {
 	}
 }
 
+// replaceVar substitutes term t for the variable name v (not for longer names it prefixes).
+func replaceVar(s, v string, t Term) string {
+	var b strings.Builder
+	for {
+		i := strings.Index(s, v)
+		if i < 0 {
+			b.WriteString(s)
+			return b.String()
+		}
+		j := i + len(v)
+		if j < len(s) && (s[j] >= '0' && s[j] <= '9') {
+			b.WriteString(s[:j])
+			s = s[j:]
+			continue
+		}
+		b.WriteString(s[:i])
+		b.WriteString(t)
+		s = s[j:]
+	}
+}
+
+// harvestNeg: the assumed clause is the negation of e. not(exists x in r :: A && exists y in r2 :: B)
+// becomes a (one- or two-variable) universally quantified fact kept for explicit instantiation.
+func (u *Unit) harvestNeg(st *State, env *SpecEnv, e *Spec, ante Term, depth int) {
+	var bvs []string
+	var guards []Term
+	var collect func(env *SpecEnv, e *Spec, depth int) (Term, bool)
+	collect = func(env *SpecEnv, e *Spec, depth int) (Term, bool) {
+		if depth > 8 || e == nil {
+			return "", false
+		}
+		switch {
+		case e.Kind == SQuant && e.Op == "exists" && e.B != nil:
+			if len(bvs) >= 2 {
+				return "", false
+			}
+			lo, e1 := u.evalInt(st, env, e.B)
+			hi, e2 := u.evalInt(st, env, e.C)
+			if e1 != nil || e2 != nil {
+				return "", false
+			}
+			u.freshN++
+			bv := fmt.Sprintf("qi_%s!%d$", mangle(e.Name), u.freshN)
+			bvs = append(bvs, bv)
+			guards = append(guards, fmt.Sprintf("(and (<= %s %s) (< %s %s))", lo, bv, bv, hi))
+			return collect(env.with(e.Name, Val{T: tInt, Terms: []Term{bv}}), e.A, depth+1)
+		case e.Kind == SBinary && e.Op == "&&":
+			a, err := u.evalBool(st, env, e.A)
+			if err != nil {
+				return "", false
+			}
+			guards = append(guards, a)
+			return collect(env, e.B, depth+1)
+		case e.Kind == SCall && e.A == nil:
+			if sf := u.lookupSpec(env, e.Name); sf != nil && len(sf.Params) == len(e.Args) {
+				ne := &SpecEnv{vars: map[string]Val{}, old: env.old, fn: env.fn, pkg: env.pkg, depth: env.depth + 1}
+				if sp := u.eng.pkgByPath(sf.Pkg); sp != nil {
+					ne.pkg = sp
+				}
+				for i, p := range sf.Params {
+					v, err := u.eval(st, env, e.Args[i])
+					if err != nil {
+						return "", false
+					}
+					ne.vars[p.Name] = v
+				}
+				return collect(ne, sf.Body, depth+1)
+			}
+		}
+		t, err := u.evalBool(st, env, e)
+		if err != nil {
+			return "", false
+		}
+		return sNot(t), true
+	}
+	saved := u.qSide
+	var side []Term
+	u.qSide = &side
+	body, ok := collect(env, e, depth)
+	u.qSide = saved
+	if !ok || len(bvs) == 0 {
+		return
+	}
+	q := qfact{ante: ante, bv: bvs[0], impl: sImp(sAnd(guards...), body)}
+	if len(bvs) == 2 {
+		q.bv2 = bvs[1]
+	}
+	st.qfacts = append(append([]qfact(nil), st.qfacts...), q)
+	for _, a := range st.ixterms {
+		if q.bv2 == "" {
+			st.assume(sImp(q.ante, strings.ReplaceAll(q.impl, q.bv, a)))
+			continue
+		}
+		for _, b := range st.ixterms {
+			st.assume(sImp(q.ante, strings.ReplaceAll(strings.ReplaceAll(q.impl, q.bv, a), q.bv2, b)))
+		}
+	}
+}
+
 // noteSideFact records a fact that is true of every state (closed heap): assumed on the path
 // after the current specification expression, or made part of the template when it mentions
 // the bound variable of a forall that is being harvested.
@@ -1392,15 +1538,84 @@ func conjuncts(e *Spec) []*Spec {
 }
 
 func hasRangeForall(e *Spec) bool {
+	return hasRangeForallM(nil, nil, e, 0)
+}
+
+// hasRangeForallM also looks through spec macros (u, env may be nil: then it does not).
+func hasRangeForallM(u *Unit, env *SpecEnv, e *Spec, depth int) bool {
+	if depth > 6 {
+		return false
+	}
 	for _, c := range conjuncts(e) {
+		if c == nil {
+			continue
+		}
 		if c.Kind == SQuant && c.Op == "forall" && c.B != nil {
 			return true
 		}
-		if c.Kind == SBinary && c.Op == "==>" && hasRangeForall(c.B) {
+		if c.Kind == SBinary && c.Op == "==>" && hasRangeForallM(u, env, c.B, depth+1) {
+			return true
+		}
+		if u != nil && c.Kind == SCall && c.A == nil {
+			if sf := u.lookupSpec(env, c.Name); sf != nil && len(sf.Params) == len(c.Args) && hasRangeForallM(u, env, sf.Body, depth+1) {
+				return true
+			}
+		}
+	}
+	return false
+}
+
+// containsQuant: e contains a quantifier, possibly inside a spec macro.
+func containsQuant(u *Unit, env *SpecEnv, e *Spec, depth int) bool {
+	if e == nil || depth > 8 {
+		return false
+	}
+	if e.Kind == SQuant {
+		return true
+	}
+	if e.Kind == SCall && e.A == nil {
+		if sf := u.lookupSpec(env, e.Name); sf != nil && len(sf.Params) == len(e.Args) && containsQuant(u, env, sf.Body, depth+1) {
+			return true
+		}
+	}
+	for _, c := range []*Spec{e.A, e.B, e.C} {
+		if containsQuant(u, env, c, depth+1) {
+			return true
+		}
+	}
+	for _, a := range e.Args {
+		if containsQuant(u, env, a, depth+1) {
 			return true
 		}
 	}
 	return false
+}
+
+// quantAntecedent: some top-level conjunct is an implication whose antecedent contains a
+// quantifier (its witnesses / instances are worth naming before the consequent is checked).
+func quantAntecedent(u *Unit, env *SpecEnv, e *Spec) bool {
+	for _, c := range conjuncts(e) {
+		if c != nil && c.Kind == SBinary && c.Op == "==>" && containsQuant(u, env, c.A, 0) {
+			return true
+		}
+	}
+	return false
+}
+
+// macroEnv binds the parameters of a spec macro to the evaluated arguments of a call.
+func (u *Unit) macroEnv(st *State, env *SpecEnv, sf *SpecFunc, call *Spec) (*SpecEnv, error) {
+	ne := &SpecEnv{vars: map[string]Val{}, old: env.old, fn: env.fn, pkg: env.pkg, depth: env.depth + 1}
+	if sp := u.eng.pkgByPath(sf.Pkg); sp != nil {
+		ne.pkg = sp
+	}
+	for i, p := range sf.Params {
+		v, err := u.eval(st, env, call.Args[i])
+		if err != nil {
+			return nil, err
+		}
+		ne.vars[p.Name] = v
+	}
+	return ne, nil
 }
 
 func (u *Unit) unfoldOf(e *Spec) *SpecFunc {
@@ -1468,7 +1683,7 @@ func (u *Unit) obligeClause(st *State, env *SpecEnv, e *Spec, kind, label string
 	if st.discover != nil || st.dead {
 		return nil
 	}
-	if !hasRangeForall(e) && !hasFoldable(u, e) {
+	if !hasRangeForallM(u, env, e, 0) && !hasFoldable(u, e) && !quantAntecedent(u, env, e) {
 		u.oblige(st, kind, label, full, pos, human, props, where)
 		return nil
 	}
@@ -1512,13 +1727,24 @@ func (u *Unit) obligeClause(st *State, env *SpecEnv, e *Spec, kind, label string
 				if err != nil {
 					return err
 				}
-			case cj.Kind == SBinary && cj.Op == "==>" && (hasRangeForall(cj.B) || hasFoldable(u, cj.B)):
+			case cj.Kind == SCall && cj.A == nil && depth < 8 && u.lookupSpec(cenv, cj.Name) != nil && len(u.lookupSpec(cenv, cj.Name).Params) == len(cj.Args) && hasRangeForallM(u, cenv, u.lookupSpec(cenv, cj.Name).Body, 0):
+				// a spec macro whose body has universally quantified conjuncts: check the body
+				sf := u.lookupSpec(cenv, cj.Name)
+				ne, err := u.macroEnv(cs, cenv, sf, cj)
+				if err != nil {
+					return err
+				}
+				if err := check(cs, ne, sf.Body, depth+1); err != nil {
+					return err
+				}
+			case cj.Kind == SBinary && cj.Op == "==>" && (hasRangeForallM(u, cenv, cj.B, 0) || hasFoldable(u, cj.B) || containsQuant(u, cenv, cj.A, 0)):
 				a, err := u.evalBool(cs, cenv, cj.A)
 				if err != nil {
 					return err
 				}
 				s2 := cs.clone()
 				s2.assume(a)
+				u.harvest(s2, cenv, cj.A, "true", 0)
 				if err := check(s2, cenv, cj.B, depth+1); err != nil {
 					return err
 				}
